@@ -1,4 +1,5 @@
 mod ast;
+mod bytecode;
 mod dbgparse;
 mod diff;
 mod difftest;
@@ -31,6 +32,7 @@ fn table(id: &str) -> Option<(RunFn, ReplayFn)> {
         "C07" => (props::c07::run, props::c07::replay),
         "C08" => (props::c08::run, props::c08::replay),
         "C09" => (props::c09::run_check, props::c09::replay),
+        "C10" => (props::c10::run_check, props::c10::replay),
         "C15" => (props::c15::run, props::c15::replay),
         _ => return None,
     })
